@@ -1,9 +1,10 @@
 from corr import kern_family
+from checks import _sym
 from oracles import c13 as oracle
 
-GEN = ["Const", "Tol"]
-LEAN_TARGETS = ["MagpyVerif.Props.C13"]
-PROPS = ["MagpyVerif.Props.C13"]
+GEN = ["Const", "Tol", "CylSegGen"] + _sym.GEN
+LEAN_TARGETS = ["MagpyVerif.Props.C13", "MagpyVerif.Gen.CylSegGen"] + _sym.LEAN_TARGETS  # CylSegGen: the regenerated CylinderSegment translation and its `sync_*` theorems against the frozen model
+PROPS = ["MagpyVerif.Props.C13"] + _sym.PROPS
 NOT_SHOWN = {
  "C01": ["the vertices form of Polyline (current_vertices_field: repeat/reshape/sum over consecutive segments) is not modelled; single segments are proved equal to the Biot-Savart integral",
          "Cuboid, Triangle/Tetrahedron/TriangularMesh closed forms = their surface integrals (iterated one-variable integrals; not formalised)",
@@ -18,11 +19,15 @@ NOT_SHOWN = {
 
 
 def run(ctx, model_ok):
+    _sym.run(ctx, ctx.scale(70, 2000))
     if ctx.driver_ok:
         st = kern_family.run_stream(ctx, ctx.scale(400, 20000))
         ctx.cov["traces_validated_against_impl"] = st["rows"]
         st.pop("samples")
         ctx.cov["correspondence"] = st
+    # the CylinderSegment theorems are about Model/CylSeg*.lean: is the frozen translation still what the source says, and does the port agree with the real code?
+    from checks import _cylseg
+    _cylseg.run(ctx, ctx.scale(300, 10000))
     budget = 10 if len(ctx.broken) else 1
     fails, ost = oracle.sweep(ctx, ctx.scale(42, 2500) * budget)
     ctx.failing += fails
